@@ -142,7 +142,11 @@ def r1d(ctx, facts, cfg, rule="C07.R1d"):
             from rules.common import other_loop_over
             other_loop_over(e, "_active_thread_contexts_cache", "_check_frontend_queues_and_cached_transit_events_empty")
         early = [x for lp in loops for x in walk(lp.get("body")) if x["k"] in ("BreakStmt", "ReturnStmt", "GotoStmt", "ContinueStmt")]
-        refresh = bool(e.calls(r"::_update_active_thread_contexts_cache$"))
+        # ... reloaded on every path before the first context is looked at (a context registered since the last reload holds statements
+        # the answer has to cover)
+        upd = [p_ for c in e.calls(r"::_update_active_thread_contexts_cache$") for p_ in eg.positions(c)]
+        looked = [p_ for lp in loops for x in walk(lp.get("body")) if is_call(x, r"::empty$") for p_ in eg.positions(x)]
+        refresh = bool(upd) and bool(looked) and not eg.exists_path([eg.entry_node], looked, avoid_nodes=upd)
         ok = kinds == {"U", "B", "T"} and not others and bool(loops) and not early and refresh
     ctx.ob(rule, "_check_frontend_queues_and_cached_transit_events_empty:covers-everything", ok,
            "'empty' is the conjunction over every (freshly reloaded) thread context of queue.empty() for both queue kinds and "
